@@ -18,7 +18,7 @@ def check(case, rec):
 
 
 PARTS = [
-    Part('histories', check, strategy=lambda tier: history(tier, 'c02'), n={'quick': 150, 'thorough': 1500}, workers={'quick': 8, 'thorough': 16}),
+    Part('histories', check, strategy=lambda tier: history(tier, 'c02'), n={'quick': 250, 'thorough': 1500}, workers={'quick': 8, 'thorough': 16}),
     Part('fuzz_histories', None, fuzz_of='histories', runs={'quick': 0, 'thorough': 6000}, workers={'quick': 0, 'thorough': 8},
          doc='atheris campaign over operation histories (coverage feedback from pytenet)'),
 ]
